@@ -17,6 +17,7 @@ use std::collections::BTreeSet;
 
 pub fn run_case(ctx: &Ctx, case: u64, ev: &mut Ev) {
     let mut rng = Rng::derive(ctx.seed, "C13", case);
+    rng.big = ctx.tier == crate::Tier::Thorough && rng.chance(0.2);
     match rng.below(5) {
         0 | 1 => run::<2>(case, &mut rng, ev),
         2 | 3 => run::<3>(case, &mut rng, ev),
@@ -114,7 +115,7 @@ fn skip_mask(rng: &mut Rng, n: usize) -> BTreeSet<usize> {
 }
 
 fn run<const K: usize>(case: u64, rng: &mut Rng, ev: &mut Ev) {
-    let target = 1 + rng.below(14);
+    let target = 1 + rng.below(if rng.big { 40 } else { 14 });
     let removals = rng.chance(0.6);
     let (t, m) = random_tree::<K>(rng, target, removals);
     let snap = tsnap(&t);
